@@ -133,3 +133,353 @@ Proof.
     + discriminate.
     + intros (e' & _ & H & _). discriminate.
 Qed.
+
+(* ---------- the invariant ---------- *)
+Definition apq_ok (g : ghost) (m : msg) : Prop :=
+  match m with
+  | APQ t prev prevT es _ _ _ =>
+      gl g t <> 0 /\ is_prefix (firstn prev (tl g t) ++ es) (tl g t) /\ (prev = 0 \/ term_at (tl g t) prev = Some prevT)
+  | _ => True
+  end.
+
+Record linv (cfg : config) (s : state) (g : ghost) : Prop := {
+  G1 : forall t, gl g t <> 0 -> is_server cfg (gl g t) = true /\
+         ((s_term (srv s (gl g t)) = t /\ s_role (srv s (gl g t)) = Leader) \/ t < s_term (srv s (gl g t)));
+  G2 : forall j, is_server cfg j = true -> s_role (srv s j) = Leader -> gl g (s_term (srv s j)) = j;
+  G6 : forall t, gl g t <> 0 -> exists Q, NoDup Q /\ incl Q (seq 1 (cfg_n cfg)) /\ cfg_n cfg < List.length Q * 2 /\
+         forall v, In v Q -> gv g v t = gl g t;
+  T0 : forall j, is_server cfg j = true -> s_role (srv s j) = Leader -> s_log (srv s j) = tl g (s_term (srv s j));
+  T1 : forall t, tree_ok (tl g) (tl g t);
+  T2 : forall i, tree_ok (tl g) (s_log (srv s i));
+  T3n : forall d m, In m (net s d) -> apq_ok g m;
+  T3m : forall i m, s_m (srv s i) = Some m -> apq_ok g m;
+  T5 : forall t, gl g t = 0 -> tl g t = []
+}.
+
+Lemma role_term_log_cases cfg s ev s' i : step cfg s ev = Commit s' ->
+  (s_role (srv s' i) = s_role (srv s i) /\ s_term (srv s' i) = s_term (srv s i) /\ s_log (srv s' i) = s_log (srv s i) /\
+   s_vgrant (srv s' i) = s_vgrant (srv s i) /\ s_m (srv s' i) = s_m (srv s i) ) \/
+  (exists m, s_role (srv s' i) = s_role (srv s i) /\ s_term (srv s' i) = s_term (srv s i) /\ s_log (srv s' i) = s_log (srv s i) /\
+   s_vgrant (srv s' i) = s_vgrant (srv s i) /\ s_m (srv s' i) = Some m /\ In m (net s i)) \/
+  (exists l out ltr, is_server cfg i = true /\ server_core cfg i (srv s i) (check_fail cfg s i) l = HR (srv s' i) out ltr).
+Proof.
+  intros H. destruct (step_shape_of _ _ _ _ H).
+  - rewrite Hsrv. destruct (Nat.eq_dec i i0) as [->|Hn].
+    + rewrite upd_same. right. right. eauto.
+    + rewrite upd_other by auto. left. auto.
+  - rewrite Hsrv. destruct (Nat.eq_dec i i0) as [->|Hn].
+    + rewrite upd_same. right. left. exists m. cbn. repeat split; auto. eapply nth_error_In; eauto.
+    + rewrite upd_other by auto. left. auto.
+  - rewrite Hsrv. left. auto.
+  - rewrite Hsrv. left. auto.
+Qed.
+
+Lemma ghost_step cfg s g ev s' :
+  einv cfg s (gv g) -> linv cfg s g -> step cfg s ev = Commit s' ->
+  forall t,
+    (leader_of cfg s' t = None /\ gl (observe cfg g s') t = gl g t /\ tl (observe cfg g s') t = tl g t) \/
+    (exists i, leader_of cfg s' t = Some i /\ is_server cfg i = true /\
+       s_role (srv s' i) = Leader /\ s_term (srv s' i) = t /\
+       gl (observe cfg g s') t = i /\ tl (observe cfg g s') t = s_log (srv s' i) /\
+       ((gl g t = i /\ s_role (srv s i) = Leader /\ s_term (srv s i) = t /\ tl g t = s_log (srv s i)) \/
+        (gl g t = 0 /\ s_role (srv s i) = Candidate /\ s_term (srv s i) = t /\ s_log (srv s' i) = s_log (srv s i) /\
+         is_quorum cfg (s_vgrant (srv s i)) = true))).
+Proof.
+  intros IE I H t. cbn. destruct (leader_of cfg s' t) as [i|] eqn:E; [right|left; auto].
+  unfold leader_of in E. apply find_some in E as [Hin Hl]. apply in_servers in Hin. apply is_leader_in_spec in Hl as [Hr Ht].
+  exists i. repeat split; auto.
+  destruct (role_term_log_cases _ _ _ _ i H) as [(A & B & C & _)|[(m & A & B & C & _)|(l & out & ltr & _ & Hc)]].
+  - left. rewrite A in Hr. rewrite B in Ht. repeat split; auto.
+    + rewrite <- Ht. apply (G2 _ _ _ I); auto.
+    + rewrite <- Ht. symmetry. apply (T0 _ _ _ I); auto.
+  - left. rewrite A in Hr. rewrite B in Ht. repeat split; auto.
+    + rewrite <- Ht. apply (G2 _ _ _ I); auto.
+    + rewrite <- Ht. symmetry. apply (T0 _ _ _ I); auto.
+  - destruct (core_leader_cases _ _ _ _ _ _ _ _ Hc Hr) as [[A B]|(A & B & Q & C & D)].
+    + left. rewrite B in Ht. repeat split; auto.
+      * rewrite <- Ht. apply (G2 _ _ _ I); auto.
+      * rewrite <- Ht. symmetry. apply (T0 _ _ _ I); auto.
+    + right. rewrite B in Ht. repeat split; auto.
+      destruct (Nat.eq_dec (gl g t) 0) as [|Hne]; auto. exfalso.
+      destruct (G1 _ _ _ I t Hne) as [Hs Hcase].
+      destruct (G6 _ _ _ I t Hne) as (Qj & N & Inc & Hq & Hv).
+      assert (Rc : s_role (srv s i) <> Follower) by congruence.
+      unfold is_quorum in Q. apply Nat.ltb_lt in Q.
+      destruct (quorum_intersect (cfg_n cfg) (s_vgrant (srv s i)) Qj) as (v & V1 & V2); auto.
+      * apply ssorted_NoDup, (E7 _ _ _ IE).
+      * intros v Hv'. apply is_server_in_seq. eapply (E4 _ _ _ IE i Hin Rc v Hv').
+      * destruct (E4 _ _ _ IE i Hin Rc v V1) as [Ea _]. rewrite Ht in Ea. rewrite (Hv v V2) in Ea.
+        rewrite Ea in Hcase. destruct Hcase as [[_ X]|X]; [congruence|lia].
+Qed.
+
+Lemma log_prefix_leader cfg s ev s' i : step cfg s ev = Commit s' ->
+  s_role (srv s i) = Leader -> s_role (srv s' i) = Leader -> is_prefix (s_log (srv s i)) (s_log (srv s' i)).
+Proof.
+  intros H A B. destruct (role_term_log_cases _ _ _ _ i H) as [(_ & _ & C & _)|[(m & _ & _ & C & _)|(l & out & ltr & _ & Hc)]].
+  - rewrite C. apply is_prefix_refl.
+  - rewrite C. apply is_prefix_refl.
+  - destruct (core_log_cases _ _ _ _ _ _ _ _ Hc) as [C|[(_ & _ & _ & c & j & C)|(mt & prev & prevT & es & mc & j & d & _ & R & _)]].
+    + rewrite C. apply is_prefix_refl.
+    + rewrite C. apply is_prefix_app.
+    + congruence.
+Qed.
+
+Section GhostStep.
+  Variables (cfg : config) (s : state) (g : ghost) (ev : event) (s' : state).
+  Hypothesis IE : einv cfg s (gv g).
+  Hypothesis I : linv cfg s g.
+  Hypothesis H : step cfg s ev = Commit s'.
+  Let g' := observe cfg g s'.
+
+  Lemma tl_grows t : is_prefix (tl g t) (tl g' t).
+  Proof.
+    destruct (ghost_step _ _ _ _ _ IE I H t) as [(_ & _ & E)|(i & _ & Hi & Hr & Ht & _ & E & [(A & B & C & D)|(A & _)])];
+      fold g' in E; rewrite E.
+    - apply is_prefix_refl.
+    - rewrite D. eapply log_prefix_leader; eauto.
+    - rewrite (T5 _ _ _ I t A). exists (s_log (srv s' i)). reflexivity.
+  Qed.
+
+  Lemma gl_persist t : gl g t <> 0 -> gl g' t = gl g t.
+  Proof.
+    intros Hne.
+    destruct (ghost_step _ _ _ _ _ IE I H t) as [(_ & E & _)|(i & _ & Hi & Hr & Ht & E & _ & [(A & _)|(A & _)])];
+      fold g' in E; rewrite E; congruence.
+  Qed.
+
+  Lemma gv_extends : extends (gv g) (gv g').
+  Proof. unfold g'. cbn. eapply observe_extends; eauto. Qed.
+End GhostStep.
+
+Lemma tree_ok_grow (tl1 tl2 : nat -> list entry) X :
+  (forall t, is_prefix (tl1 t) (tl2 t)) -> tree_ok tl1 X -> tree_ok tl2 X.
+Proof.
+  intros P T p e Hn. rewrite (T p e Hn). apply is_prefix_firstn; auto.
+  eapply firstn_eq_length; [|apply (T p e Hn)]. pose proof (nth_error_lt _ _ _ Hn). lia.
+Qed.
+
+Lemma prefix_firstn_grow {A} n (a b es : list A) :
+  is_prefix (firstn n a ++ es) a -> is_prefix a b -> is_prefix (firstn n b ++ es) b.
+Proof.
+  intros P Q. destruct (Nat.le_gt_cases n (List.length a)) as [Hle|Hgt].
+  - rewrite <- (is_prefix_firstn a b n Q Hle). eapply is_prefix_trans; eauto.
+  - rewrite firstn_all2 in P by lia.
+    assert (es = []).
+    { apply is_prefix_length in P. rewrite app_length in P. destruct es; auto. cbn in P. lia. }
+    subst. rewrite app_nil_r. apply firstn_is_prefix.
+Qed.
+
+Lemma term_at_prefix a b k t : is_prefix a b -> term_at a k = Some t -> term_at b k = Some t.
+Proof.
+  intros P. rewrite !term_at_nth. intros (e & A & B & C). exists e. repeat split; auto. eapply is_prefix_nth; eauto.
+Qed.
+
+Lemma apq_ok_grow (g g' : ghost) m :
+  (forall t, is_prefix (tl g t) (tl g' t)) -> (forall t, gl g t <> 0 -> gl g' t = gl g t) -> apq_ok g m -> apq_ok g' m.
+Proof.
+  intros P Q. destruct m; cbn; auto. intros (A & B & C). repeat split.
+  - rewrite Q; auto.
+  - eapply prefix_firstn_grow; eauto.
+  - destruct C as [C|C]; auto. right. eapply term_at_prefix; eauto.
+Qed.
+
+Lemma accept_log cfg s g i mt prev prevT es mc j d :
+  linv cfg s g -> s_m (srv s i) = Some (APQ mt prev prevT es mc j d) ->
+  (prev = 0 \/ (0 < prev /\ term_at (s_log (srv s i)) prev = Some prevT)) ->
+  firstn prev (s_log (srv s i)) = firstn prev (tl g mt) /\ is_prefix (firstn prev (s_log (srv s i)) ++ es) (tl g mt).
+Proof.
+  intros I Hm Hok. pose proof (T3m _ _ _ I _ _ Hm) as (A & B & C). cbn in *.
+  assert (E : firstn prev (s_log (srv s i)) = firstn prev (tl g mt)).
+  { destruct Hok as [->|[Hp Ht]]; [reflexivity|].
+    destruct C as [->|C]; [lia|].
+    apply term_at_nth in Ht as (e1 & _ & N1 & T1'). apply term_at_nth in C as (e2 & _ & N2 & T2').
+    pose proof (T2 _ _ _ I i _ _ N1) as X1. pose proof (T1 _ _ _ I mt _ _ N2) as X2.
+    replace (S (prev - 1)) with prev in * by lia. rewrite X1, X2. congruence. }
+  split; auto. rewrite E. exact B.
+Qed.
+
+Section LinvStep.
+  Variables (cfg : config) (s : state) (g : ghost) (ev : event) (s' : state).
+  Hypothesis IE : einv cfg s (gv g).
+  Hypothesis I : linv cfg s g.
+  Hypothesis H : step cfg s ev = Commit s'.
+  Hypothesis R' : reachable cfg s'.
+  Let g' := observe cfg g s'.
+
+  Lemma leader_unique i j : is_server cfg i = true -> is_server cfg j = true ->
+    s_role (srv s' i) = Leader -> s_role (srv s' j) = Leader -> s_term (srv s' i) = s_term (srv s' j) -> i = j.
+  Proof.
+    intros Hi Hj Li Lj Ht. destruct (Nat.eq_dec i j); auto. exfalso.
+    apply (election_safety_lemma _ _ R'). exists i, j. repeat split; auto.
+  Qed.
+
+  Lemma leader_tl i : is_server cfg i = true -> s_role (srv s' i) = Leader ->
+    gl g' (s_term (srv s' i)) = i /\ tl g' (s_term (srv s' i)) = s_log (srv s' i).
+  Proof.
+    intros Hi Li.
+    destruct (ghost_step _ _ _ _ _ IE I H (s_term (srv s' i))) as [(E & _)|(j & _ & Hj & Lj & Tj & A & B & _)].
+    - exfalso. unfold leader_of in E. eapply find_none in E; [|apply in_servers; eauto].
+      assert (is_leader_in s' (s_term (srv s' i)) i = true) by (apply is_leader_in_spec; auto). congruence.
+    - fold g' in A, B. assert (Eji : j = i) by (apply leader_unique; auto). rewrite Eji in *. auto.
+  Qed.
+
+  Lemma T2_step i : tree_ok (tl g') (s_log (srv s' i)).
+  Proof.
+    pose proof (tl_grows _ _ _ _ _ IE I H) as Grow. fold g' in Grow.
+    destruct (role_term_log_cases _ _ _ _ i H) as [(_ & _ & C & _)|[(m & _ & _ & C & _)|(l & out & ltr & Hi & Hc)]].
+    - rewrite C. eapply tree_ok_grow; eauto. apply (T2 _ _ _ I).
+    - rewrite C. eapply tree_ok_grow; eauto. apply (T2 _ _ _ I).
+    - destruct (core_log_cases _ _ _ _ _ _ _ _ Hc) as [C|[(Rl & Rl' & Tt & c & j & C)|(mt & prev & prevT & es & mc & j & d & Hm & Rf & Tm & Hok & C)]].
+      + rewrite C. eapply tree_ok_grow; eauto. apply (T2 _ _ _ I).
+      + (* the leader appends an entry of its own term *)
+        destruct (leader_tl i Hi Rl') as [_ Etl]. intros p e Hn.
+        destruct (Nat.lt_ge_cases p (List.length (s_log (srv s i)))) as [Hlt|Hge].
+        * assert (Hn0 : nth_error (s_log (srv s i)) p = Some e).
+          { rewrite C in Hn. rewrite nth_error_app1 in Hn; auto. }
+          rewrite <- (is_prefix_firstn (s_log (srv s i)) (s_log (srv s' i)) (S p)); [|rewrite C; apply is_prefix_app|lia].
+          eapply (tree_ok_grow (tl g) (tl g')); eauto. apply (T2 _ _ _ I).
+        * rewrite C in Hn. rewrite nth_error_app2 in Hn by lia.
+          destruct (p - List.length (s_log (srv s i))) as [|q] eqn:Eq; cbn in Hn; [|destruct q; discriminate].
+          injection Hn as <-. cbn [e_term]. rewrite <- Tt, Etl. reflexivity.
+      + (* a follower accepts AppendEntries *)
+        destruct (accept_log _ _ _ _ _ _ _ _ _ _ _ I Hm Hok) as [_ P]. rewrite C.
+        eapply tree_ok_grow; eauto. eapply tree_ok_prefix; eauto. apply (T1 _ _ _ I).
+  Qed.
+
+  Lemma T1_step t : tree_ok (tl g') (tl g' t).
+  Proof.
+    destruct (ghost_step _ _ _ _ _ IE I H t) as [(_ & _ & E)|(i & _ & Hi & Hr & Ht & _ & E & _)]; fold g' in E; rewrite E.
+    - eapply tree_ok_grow; [apply (tl_grows _ _ _ _ _ IE I H)|]. apply (T1 _ _ _ I).
+    - apply T2_step.
+  Qed.
+
+  Lemma apq_ok_keep m : apq_ok g m -> apq_ok g' m.
+  Proof.
+    apply apq_ok_grow; [apply (tl_grows _ _ _ _ _ IE I H) | apply (gl_persist _ _ _ _ _ IE I H)].
+  Qed.
+
+  Lemma out_apq_ok i l out ltr md d m :
+    is_server cfg i = true ->
+    server_core cfg i (srv s i) (check_fail cfg s i) l = HR (srv s' i) out ltr -> out = Some (md, d, m) -> apq_ok g' m.
+  Proof.
+    intros Hi Hc ->. destruct m; try exact Logic.I. unfold apq_ok.
+    destruct (core_apq_out _ _ _ _ _ _ _ _ _ _ _ _ _ _ _ _ Hc) as (Rl & -> & El & Et & Rl' & -> & Hp & ->).
+    destruct (leader_tl i Hi Rl') as [Eg Etl]. rewrite Et in Eg, Etl. rewrite Eg, Etl, El.
+    repeat split.
+    - apply (is_server_pos _ _ Hi).
+    - rewrite firstn_skipn. apply is_prefix_refl.
+    - destruct Hp as [Hp|[_ Hp]]; auto.
+  Qed.
+
+  Lemma T3n_step d m : In m (net s' d) -> apq_ok g' m.
+  Proof.
+    intros Hin. destruct (step_shape_of _ _ _ _ H).
+    - destruct Hnet as [Hn|(md & d0 & m0 & -> & Hn & _)]; rewrite Hn in Hin.
+      + apply apq_ok_keep. eapply T3n; eauto.
+      + unfold upd in Hin. destruct (d =? d0).
+        * apply in_app_iff in Hin as [Hin|[<-|[]]].
+          -- apply apq_ok_keep. eapply T3n; eauto.
+          -- eapply (out_apq_ok i l); eauto. rewrite Hsrv, upd_same. exact Hcore.
+        * apply apq_ok_keep. eapply T3n; eauto.
+    - rewrite Hnet in Hin. unfold upd in Hin. apply apq_ok_keep. destruct (d =? i) eqn:Ed.
+      + apply In_remove_nth in Hin. apply Nat.eqb_eq in Ed. subst. eapply T3n; eauto.
+      + eapply T3n; eauto.
+    - destruct Hnet as [Hn|[(d0 & m0 & Hn & _ & _ & (cm & ->))|(k & Hn)]]; rewrite Hn in Hin.
+      + apply apq_ok_keep. eapply T3n; eauto.
+      + unfold upd in Hin. destruct (d =? d0).
+        * apply in_app_iff in Hin as [Hin|[<-|[]]]; [|exact Logic.I]. apply apq_ok_keep. eapply T3n; eauto.
+        * apply apq_ok_keep. eapply T3n; eauto.
+      + unfold upd in Hin. apply apq_ok_keep. destruct (d =? c) eqn:Ed.
+        * apply In_remove_nth in Hin. apply Nat.eqb_eq in Ed. subst. eapply T3n; eauto.
+        * eapply T3n; eauto.
+    - rewrite Hnet in Hin. apply apq_ok_keep. eapply T3n; eauto.
+  Qed.
+
+  Lemma T3m_step i m : s_m (srv s' i) = Some m -> apq_ok g' m.
+  Proof.
+    intros Hm. destruct (role_term_log_cases _ _ _ _ i H) as [(_ & _ & _ & _ & C)|[(m0 & _ & _ & _ & _ & C & Hin)|(l & out & ltr & Hi & Hc)]].
+    - rewrite C in Hm. apply apq_ok_keep. eapply T3m; eauto.
+    - rewrite C in Hm. injection Hm as <-. apply apq_ok_keep. eapply T3n; eauto.
+    - rewrite (core_m_stable _ _ _ _ _ _ _ _ Hc) in Hm. apply apq_ok_keep. eapply T3m; eauto.
+  Qed.
+
+  Lemma linv_step : linv cfg s' g'.
+  Proof.
+    constructor.
+    - (* G1 *)
+      intros t Hne.
+      destruct (ghost_step _ _ _ _ _ IE I H t) as [(En & E & _)|(i & _ & Hi & Hr & Ht & E & _)]; fold g' in E; rewrite E in *.
+      + destruct (G1 _ _ _ I t Hne) as [Hs [[A B]|A]]; split; auto.
+        * set (j := gl g t) in *. pose proof (term_monotone_step _ _ _ _ j H) as Hm.
+          destruct (Nat.eq_dec (s_term (srv s' j)) t) as [Et|]; [|right; lia].
+          exfalso. assert (Lj : s_role (srv s' j) = Leader).
+          { destruct (step_srv_cases _ _ _ _ H j) as [Es|[(l & out & ltr & _ & Ec)|(m & Es)]].
+            - now rewrite Es.
+            - eapply core_leader_stays; eauto. lia.
+            - rewrite Es. exact B. }
+          unfold leader_of in En. eapply find_none in En; [|apply in_servers; eauto].
+          assert (is_leader_in s' t j = true) by (apply is_leader_in_spec; auto). congruence.
+        * right. pose proof (term_monotone_step _ _ _ _ (gl g t) H). lia.
+      + split; auto.
+    - (* G2 *) intros j Hj Lj. apply leader_tl; auto.
+    - (* G6 *)
+      intros t Hne.
+      destruct (ghost_step _ _ _ _ _ IE I H t) as [(_ & E & _)|(i & _ & Hi & Hr & Ht & E & _ & [(A & _)|(A & B & C & _ & Q)])];
+        fold g' in E; rewrite E in *.
+      + destruct (G6 _ _ _ I t Hne) as (Q & N & Inc & Hq & Hv). exists Q. repeat split; auto.
+        intros v Hv'. rewrite (gv_extends _ _ _ _ _ IE H); auto. rewrite Hv; auto.
+      + assert (Hne' : gl g t <> 0) by (rewrite A; apply (is_server_pos _ _ Hi)).
+        destruct (G6 _ _ _ I t Hne') as (Q & N & Inc & Hq & Hv). exists Q. repeat split; auto.
+        intros v Hv'. rewrite (gv_extends _ _ _ _ _ IE H); rewrite Hv; auto.
+      + assert (Rc : s_role (srv s i) <> Follower) by congruence.
+        exists (s_vgrant (srv s i)). repeat split.
+        * apply ssorted_NoDup, (E7 _ _ _ IE).
+        * intros v Hv'. apply is_server_in_seq. eapply (E4 _ _ _ IE i Hi Rc v Hv').
+        * unfold is_quorum in Q. now apply Nat.ltb_lt in Q.
+        * intros v Hv'. destruct (E4 _ _ _ IE i Hi Rc v Hv') as [Ea _]. rewrite C in Ea.
+          rewrite (gv_extends _ _ _ _ _ IE H); auto. rewrite Ea. apply (is_server_pos _ _ Hi).
+    - (* T0 *) intros j Hj Lj. symmetry. apply leader_tl; auto.
+    - apply T1_step.
+    - apply T2_step.
+    - apply T3n_step.
+    - apply T3m_step.
+    - (* T5 *)
+      intros t Hz.
+      destruct (ghost_step _ _ _ _ _ IE I H t) as [(_ & E & E2)|(i & _ & Hi & Hr & Ht & E & _)]; fold g' in E; rewrite E in *.
+      + fold g' in E2. rewrite E2. apply (T5 _ _ _ I); auto.
+      + exfalso. apply (is_server_pos _ _ Hi). auto.
+  Qed.
+End LinvStep.
+
+Lemma linv_init cfg : linv cfg (init cfg) ghost0.
+Proof.
+  constructor; cbn; try congruence; try tauto; try discriminate.
+  all: intros ? p e Hn; destruct p; discriminate.
+Qed.
+
+Lemma greach_linv cfg s g : greach cfg s g -> linv cfg s g.
+Proof.
+  induction 1; [apply linv_init|].
+  eapply linv_step; eauto.
+  - eapply vreach_einv, greach_vreach; eauto.
+  - eapply reach_step; [eapply greach_reachable; eauto | eauto].
+Qed.
+
+(* LogMatching == \A i, j \in ServerSet: \A k \in 1..Min({Len(log[i]), Len(log[j])}):
+                    log[i][k].term = log[j][k].term => SubSeq(log[i], 1, k) = SubSeq(log[j], 1, k) *)
+Theorem log_matching_lemma cfg s :
+  reachable cfg s ->
+  forall i j k, is_server cfg i = true -> is_server cfg j = true ->
+    1 <= k -> k <= Nat.min (List.length (s_log (srv s i))) (List.length (s_log (srv s j))) ->
+    term_at (s_log (srv s i)) k = term_at (s_log (srv s j)) k ->
+    firstn k (s_log (srv s i)) = firstn k (s_log (srv s j)).
+Proof.
+  intros Hr i j k _ _ Hk1 Hk2 Ht.
+  destruct (reachable_greach _ _ Hr) as [g Hg]. pose proof (greach_linv _ _ _ Hg) as I.
+  destruct (nth_error (s_log (srv s i)) (k - 1)) as [e1|] eqn:N1; [|apply nth_error_None in N1; lia].
+  destruct (nth_error (s_log (srv s j)) (k - 1)) as [e2|] eqn:N2; [|apply nth_error_None in N2; lia].
+  assert (T1' : term_at (s_log (srv s i)) k = Some (e_term e1)) by (apply term_at_nth; exists e1; repeat split; auto; lia).
+  assert (T2' : term_at (s_log (srv s j)) k = Some (e_term e2)) by (apply term_at_nth; exists e2; repeat split; auto; lia).
+  pose proof (T2 _ _ _ I i _ _ N1) as X1. pose proof (T2 _ _ _ I j _ _ N2) as X2.
+  replace (S (k - 1)) with k in * by lia. rewrite X1, X2. congruence.
+Qed.
